@@ -44,6 +44,16 @@ def check_clock(start, end, pre, post, acc, reuse=False):
                         'the clock for the valid range %s raised %r' % (case, e), case)
     want = cal.clock(start, end, pre, post)
     acc.count('C12:events_observed', len(got))
+    if reuse:
+        import copy
+        for how in (copy.deepcopy, copy.copy):
+            twin = [(to_py(e.ts), e.event_type) for e in how(DailyBusinessDaySimulationEngine(pts(start), pts(end), pre_market=pre,
+                                                                                            post_market=post))]
+            if twin != got:
+                raise Violation('C12', 'copied-engine-differs', 'a %s of the engine for %s emits %d events, the engine itself %d (first '
+                                'difference %s)' % (how.__name__, case, len(twin), len(got),
+                                                    next(((a_, b_) for a_, b_ in zip(twin, got) if a_ != b_), None)), case)
+        acc.count('C12:copied_engines_compared')
     for i in range(1, len(got)):
         if not got[i - 1][0] < got[i][0]:
             raise Violation('C12', 'not-increasing', 'events %s and %s are not in strictly increasing order'
@@ -438,6 +448,8 @@ def shard_c13(spec, acc):
                              rebalances=('daily', 'weekly', 'end_of_month'), two_sources=0)
         cfg['start'] = '%s %s+00:00' % (cfg['start'][:10], rng.choice(['22:15:00', '21:00:00', '21:00:01', '23:30:00', '16:00:00',
                                                                       '14:30:01', '00:00:00', '09:00:00']))
+        if rng.random() < 0.4:
+            cfg['end'] = cfg['end'][:10] + cfg['start'][10:]        # the end carries the start's time of day (e.g. 00:00 .. 00:00)
         sesswl.run_case(cfg, acc, 'C13')
         acc.evaluations += 1
         acc.see('C13:session_start_times', cfg['start'][11:19])
